@@ -149,3 +149,13 @@ def run(F, chk):
         re_.ok("Server.shutting_down takers", sd.where(), "only shut_down_sessions takes the pending SoftStop id", nontrivial=False)
     else:
         re_.broke("no take() of Server.shutting_down found")
+
+
+def run_thorough(F, chk):
+    import witness
+    res = witness.run()
+    r = chk.rule("R-C10-a-w", "T6", "const assertion in the witness crate: MAX_BYTES_OUT >= 2 + MAX_FDS_OUT*(2+58)", floor=1)
+    if res.get("__build__"):
+        r.violation("witness const assertion", "witness/src/lib.rs", "the witness crate no longer builds: " + res["__build__"][-300:])
+    else:
+        r.ok("witness const assertion", "witness/src/lib.rs", "crate with the const assertion compiled")
